@@ -536,6 +536,83 @@ def check_seed_forwarding(ctx, repo, mods):
                       "%s: %s" % (q, msg), loc)
 
 
+APPLY = ("predict", "predict_proba", "transform", "inverse_transform", "predict_quantiles", "predict_interval", "decision_function")
+
+
+def check_stored_generator(ctx, repo, mods):
+    """R3 (f): predict / predict_proba / transform / inverse_transform must not draw from a generator object stored on self:
+    every draw advances the stored generator, i.e. the call changes the estimator and a repeated call returns something else.
+    Generators used by apply-type methods are re-derived from self.random_state inside the call."""
+    scope = RngScope(repo, mods)
+    for m in mods:
+        for c in classes_of(repo, m):
+            for meth in APPLY:
+                hit = repo.lookup_method(c, meth)
+                if hit is None:
+                    continue
+                bad = {}
+                n_draws = 0
+                seen = set()
+                work = [hit]
+                while work:
+                    k, fn = work.pop()
+                    if id(fn) in seen:
+                        continue
+                    seen.add(id(fn))
+                    names = astq.param_names(fn)
+                    selfname = names[0] if names and not k.is_static(fn.name) else None
+                    for ref in ast.walk(fn):
+                        # methods of the receiver that are called or handed to delayed(...) / map(...)
+                        if selfname and isinstance(ref, ast.Attribute) and isinstance(ref.value, ast.Name) and ref.value.id == selfname:
+                            h2 = repo.lookup_method(c, ref.attr)
+                            if h2 and ref.attr not in h2[0].properties:
+                                work.append(h2)
+                    for call in [x for x in ast.walk(fn) if isinstance(x, ast.Call)]:
+                        f = call.func
+                        if isinstance(f, ast.Attribute) and f.attr in DRAW_METHODS:
+                            recv = f.value
+                            cands = [recv]
+                            if isinstance(recv, ast.Name) and recv.id not in astq.all_param_names(fn):
+                                cands = astq.assigned_values(fn, recv.id) or [recv]
+                            for r_ in cands:
+                                if selfname and astq.is_self_attr(r_, selfname) and scope.is_rng_value(k.module, fn, c, r_):
+                                    bad.setdefault(r_.attr, []).append("%s:%s in %s" % (k.module.relpath, call.lineno, fn.name))
+                            n_draws += 1
+                tag = "%s.%s" % (c.name, meth)
+                for attr, where in sorted(bad.items()):
+                    ctx.violation("R3", "%s:stored-generator:self.%s" % (tag, attr),
+                                  "%s draws from the generator object stored in self.%s (%s): each call advances the stored generator, so the "
+                                  "call changes the estimator and repeating it (or interleaving other apply-type calls) gives different results; "
+                                  "derive the generator from self.random_state inside the call" % (tag, attr, "; ".join(where)),
+                                  where[0].split(" in ")[0], witness={"attribute": attr, "draws": where})
+                if not bad and n_draws:
+                    ctx.ok("R3", "%s:stored-generator" % tag, "%d draw(s) in the call tree, none on a generator stored on self" % n_draws,
+                           ctx.loc(hit[0].module, hit[1]))
+
+
+def check_derived_state(ctx, repo, mods):
+    """R6: an attribute whose stored value is computed from fitted state F (cache / derived quantity) must be re-derived or reset by every
+    public method that re-estimates F; otherwise results depend on the history of the estimator, not only on parameters and data."""
+    from .c13 import derived_state
+    for m in mods:
+        for c in classes_of(repo, m):
+            if "fit" not in {mn for k in repo.mro(c) if isinstance(k, ClassInfo) for mn in k.methods}:
+                continue
+            stale = derived_state(repo, c)
+            seen = set()
+            for (mn, d, f, where, k, fn) in stale:
+                if (mn, d) in seen:
+                    continue
+                seen.add((mn, d))
+                ctx.violation("R6", "%s.%s:derived:self.%s" % (c.name, mn, d),
+                              "%s.%s re-estimates self.%s but does not (on every path) re-derive self.%s, which is computed from it at %s: the value "
+                              "of an earlier fit survives, so two estimators with equal parameters fitted on equal data can differ" %
+                              (c.name, mn, f, d, where), ctx.loc(k.module, fn), witness={"derived": d, "source": f, "computed_at": where})
+            if not seen:
+                ctx.ok("R6", "%s:derived-state" % c.name, "every attribute computed from fitted state is re-derived when that state is re-estimated",
+                       ctx.loc(m, c.node), nontrivial=False)
+
+
 def _seed_guard(test, sc):
     """classify a dominating condition with respect to the seed expression ``sc`` (canonical string)"""
     def mentions(e):
@@ -657,6 +734,43 @@ def _is_identity_range(scope, m, fn, it):
     return None
 
 
+def _batch_coverage(scope, m, fn, gen, g, var):
+    """tasks built from slices ``self.A[v : v + B]`` for v in range(0, stop, B): the union of the slices is [0, ceil(stop / B) * B);
+    every member is evaluated exactly once iff that is the whole sequence.  Returns None when the tasks do not slice by the loop variable."""
+    if var is None:
+        return None
+    slices = [n for n in ast.walk(gen.elt) if isinstance(n, ast.Subscript) and isinstance(n.slice, ast.Slice)
+              and n.slice.lower is not None and astq.canon(n.slice.lower) == var]
+    if not slices:
+        return None
+    it = g.iter
+    if not (isinstance(it, ast.Call) and isinstance(it.func, ast.Name) and it.func.id == "range" and len(it.args) == 3 and not it.keywords
+            and "range" not in scope.bound_names(fn)):
+        return None, "batches are sliced by `%s`, which does not come from range(start, stop, batch)" % var
+    start, stop, step = (astq.inline_locals(fn, a) for a in it.args)
+    if astq.const_value(start) != 0:
+        return False, "the first batch starts at %s, not at member 0" % ast.unparse(start)
+    for sl in slices:
+        up = astq.inline_locals(fn, sl.slice.upper) if sl.slice.upper is not None else None
+        want = ast.BinOp(left=ast.Name(id=var, ctx=ast.Load()), op=ast.Add(), right=step)
+        if up is None or astq.canon(up) != astq.canon(want) or sl.slice.step is not None:
+            return None, "batch `%s` is not [%s : %s + batch]" % (ast.unparse(sl), var, var)
+    seqs = sorted({astq.canon(sl.value) for sl in slices})
+    total = {"len(%s)" % q_ for q_ in seqs} | {"self.n_estimators"}
+    cs = astq.canon(stop)
+    if cs in total:
+        return True, "batches [v : v + %s] for v in range(0, %s, %s) cover every member once" % (ast.unparse(step), ast.unparse(stop), ast.unparse(step))
+    # stop = k * (n // k): the remainder n mod k is never dispatched
+    if isinstance(stop, ast.BinOp) and isinstance(stop.op, ast.Mult):
+        for a, b in ((stop.left, stop.right), (stop.right, stop.left)):
+            if isinstance(b, ast.BinOp) and isinstance(b.op, ast.FloorDiv) and astq.canon(b.right) == astq.canon(a):
+                n_ = ast.unparse(b.left)
+                return False, ("the batches end at %s * (%s // %s), so the last %s mod %s members are never evaluated (e.g. %s = 10, %s = 4: "
+                               "members 8 and 9 are skipped) while the result is still normalised by all members"
+                               % (ast.unparse(a), n_, ast.unparse(a), n_, ast.unparse(a), n_, ast.unparse(a)))
+    return None, "cannot relate the end of the batches `%s` to the number of members" % ast.unparse(stop)
+
+
 def _index_uses(expr, var):
     """subscripts inside ``expr`` whose index is exactly the name ``var``"""
     return [n for n in ast.walk(expr) if isinstance(n, ast.Subscript) and isinstance(n.slice, ast.Name) and n.slice.id == var]
@@ -706,6 +820,14 @@ def check_parallel(ctx, repo, mods):
             continue
         stop = _is_identity_range(scope, m, fn, it)
         var = g.target.id if isinstance(g.target, ast.Name) else None
+        cov = _batch_coverage(scope, m, fn, gen, g, var)
+        if cov is not None:
+            verdict, why = cov
+            ctx.check(verdict, "R5", tag + ":coverage", why,
+                      "%s dispatches the members in batches that do not cover every member whatever n_jobs is: %s" % (q, why), loc,
+                      witness={"iterable": ast.unparse(it)})
+            if verdict is not True:
+                continue
         idx_uses = _index_uses(gen.elt, var) if var else []
         if idx_uses:
             if stop is None or g.ifs:
@@ -1064,6 +1186,8 @@ def run(ctx):
         widened_scope(ctx, repo, mods, eng)
     check_rng(ctx, repo, mods)
     check_seed_forwarding(ctx, repo, mods)
+    check_stored_generator(ctx, repo, mods)
+    check_derived_state(ctx, repo, mods)
     check_pickle(ctx, repo, mods)
     check_parallel(ctx, repo, mods)
     check_parallel_siblings(ctx, repo, mods)
@@ -1072,4 +1196,5 @@ def run(ctx):
     ctx.floor("R2", 10)   # public entry points (and orphan helpers) that reach a .fit/.fit_transform call
     ctx.floor("R3", 150)  # 210 functions scanned; 8 generator constructions, 4 parameter/attribute draws, 6 delayed sites
     ctx.floor("R4", 35)   # 43 classes
+    ctx.floor("R6", 30)   # classes with a fit method
     ctx.floor("R5", 10)   # 6 Parallel sites (source/index + consumer each) + 1 cross-method pairing
